@@ -58,6 +58,8 @@ SPEC = dict(
     design_ref='DESIGN.md §6 C15',
     rule='boundary sweep: header kind (internal / ext-in / ext-out) x extra-currency dict (0/1/many entries) x state-init shape '
          '(absent, 0..3 refs, split_depth, tick-tock) x body bits {0, 1, each exact inline limit -1/0/+1, 1023} x body refs 0..4, plus '
+         'exact-fill sweep: per header family (Message-X internal; relaxed internal / ext-in / ext-out) x dictionary x init shape the free sizes (anycast depths, extern lengths, byte lengths of the amounts) are solved '
+         'so that header + init bits hit every total 1000..1023, bodies at room-2..room+2 of both layouts x 0..4 refs; '
          'seeded random messages (addresses none/extern/std/anycast, boundary amounts); every message: library serialize -> Python spec '
          'decoder + Lean spec decoder (+ strict reader) + Lean model (cell hash); the spec encodings for all four Either choices -> library '
          'deserialize + Lean model parser. Wrappers: per class the boundary values of every field (0, 1, 2^n-1, default wallet id; '
@@ -516,6 +518,62 @@ def sweep(ctx, pool):
                     check_msg(ctx, msg, 'sweep', all_choices=ctx.thorough or k % 2 == 0 or nb in limits)
 
 
+def exact_fill(ctx, pool):
+    """THE CLASS "exact-fill sweeps of the joint budget": for every header family (internal with Message-X address classes: anycast depths
+    and the byte lengths of value / ihr_fee / fwd_fee are the free sizes; internal / ext-in / ext-out with relaxed address classes: also
+    addr_none and addr_extern of every length), with and without an extra-currency dictionary (a root reference), and every init shape
+    (split_depth x tick-tock x 0..3 of code / data / library; no init), the free sizes are SOLVED (gen/msgs.py fill_info, exact: the
+    lengths are counted by the block.tlb transcription) so that header bits + init bits hit EVERY value 1000..1023 - i.e. the room
+    behind an inline init, 1023 - 3 - header - init, takes every value from 20 down to -3 - and the body takes sizes from
+    room-2 .. room+2 of BOTH layouts (behind an inline init / behind an init reference) with 0..4 references.  Every (family, dictionary,
+    init shape, total) gets bodies from that grid in rotation (an offset drawn per run), the Message-X family the whole grid where the room
+    behind the init changes sign; the thorough tier takes the whole grid everywhere."""
+    rng = ctx.rng
+    rot = rng.randrange(1000)
+    idx = 0
+
+    def one(fam, ex, sh, total, full):
+        nonlocal idx
+        si = None if sh is None else M.rand_state_init(rng, pool, nrefs=sh[0], sd=sh[1], tt=sh[2])
+        sbits = 0 if si is None else len(M.enc_state_init(si)[0])
+        hb = total - sbits
+        info = M.fill_info(rng, fam, ex, hb)
+        if info is None:
+            ctx.count('exact-fill:no-such-header')
+            return
+        rooms = [1023 - hb - 2] if si is None else [1023 - 3 - total, 1023 - 3 - hb]
+        sizes = sorted({min(1023, max(0, r + o)) for r in rooms for o in (-2, -1, 0, 1, 2)})
+        grid = [(nb, nr) for nb in sizes for nr in range(5)]
+        take = grid if full else [grid[(rot + idx * 7) % len(grid)]]
+        idx += 1
+        ctx.count(f'exact-fill:{fam}')
+        ctx.count(f'exact-fill-total:{total}')
+        for nb, nr in take:
+            msg = dict(info=info, init=si, body=M.body_cell(rng, nb, nr, pool))
+            ctx.count('exact-fill-msgs')
+            check_msg(ctx, msg, f'fill{total}', all_choices=ctx.thorough)
+            if ctx.search and ctx.failures:
+                return
+
+    # (1) every family x dictionary x init shape x total 1000..1023
+    for fam in M.FILL_FAMILIES:
+        for ex in ((0, 1) if fam[0] == 'I' else (0,)):
+            for sh in [None] + [(nr, sd, tt) for sd in (False, True) for tt in (False, True) for nr in range(4)]:
+                for total in range(1000, 1024):
+                    one(fam, ex, sh, total, ctx.thorough)
+                    if ctx.search and ctx.failures:
+                        return
+    # (2) where the room behind an inline init changes sign (1021 - total = 2 .. -2): the WHOLE body grid for every count of free
+    # references (dictionary x 0..3 init references), Message-X address classes, split_depth / tick-tock drawn per cell
+    if not ctx.thorough:
+        for total in range(1019, 1024):
+            for ex in (0, 1):
+                for nr in range(4):
+                    one('I-strict', ex, (nr, rng.random() < .5, rng.random() < .5), total, True)
+                    if ctx.search and ctx.failures:
+                        return
+
+
 def random_msgs(ctx, pool, n):
     rng = ctx.rng
     for t in range(n):
@@ -594,6 +652,9 @@ def run(ctx):
     if ctx.search and ctx.failures:
         return                       # search mode only needs one concrete failing input
     header_limit(ctx, pool)
+    exact_fill(ctx, pool)
+    if ctx.search and ctx.failures:
+        return
     random_msgs(ctx, pool, ctx.n(700, 10000))
     for t in range(ctx.n(40, 400)):
         check_state_init(ctx, M.rand_state_init(rng, pool), 'si')
